@@ -298,8 +298,10 @@ def transl(x, y=None, z=None):
    """
 
     if base.isscalar(x) and y is not None and z is not None:
-        t = np.r_[x, y, z]
-        if t.dtype.kind in 'iub':
+        # (np.array, not np.r_: one single-precision NumPy scalar makes np.r_
+        # round all three values to single precision)
+        t = np.array([x, y, z])
+        if t.dtype.kind in 'iub' or (t.dtype.kind == 'f' and t.dtype.itemsize < 8):
             t = t.astype(np.float64)  # as for the vector form, which goes through getvector
     elif base.isvector(x, 3):
         t = base.getvector(x, 3, out='array')
